@@ -172,11 +172,13 @@ class StatsStub:
     def __init__(self):
         self.calls = []
 
-    def __call__(self, voltages, stats_calc_num_samples=10000):
+    def __call__(self, voltages, stats_calc_num_samples=10000, **kw):
         k = len(self.calls)
         mu, sd = Sym(z3.Real(f'MU_{k}')), Sym(z3.Real(f'SD_{k}'))
         core.side(sd.t >= 0)
         self.calls.append((list(voltages), stats_calc_num_samples, mu, sd))
+        if any(v is False for v in kw.values()):
+            return mu, None             # an option that skips part of the estimate: that part is simply absent
         return mu, sd
 
 
@@ -208,10 +210,11 @@ def job_stats(n, k):
 class Counter:
     def __init__(self, fn):
         self.fn, self.calls = fn, 0
+        self.impl = fn
 
     def __call__(self, *a, **k):
         self.calls += 1
-        return self.fn(*a, **k)
+        return self.impl(*a, **k)
 
 
 def job_refresh_step(sign):
@@ -369,8 +372,12 @@ def job_object(n, bits, custom):
             if r == 'sat':
                 recs.append(cex(f'C09:object:{part}', f'{part} part of ComplexQuantizer output is not the real quantiser of that part alone', dict(fn='object', n=n, bits=bits, custom=custom), name=f"{tag}:leaf{li}:{part}"))
         # cached statistics exposed by the complex quantiser are the two separate estimates
-        cl = [lift(cq.stats_cache_r[0]) != st.calls[0][2].t, lift(cq.stats_cache_r[1]) != st.calls[0][3].t,
-              lift(cq.stats_cache_i[0]) != st.calls[1][2].t, lift(cq.stats_cache_i[1]) != st.calls[1][3].t]
+        cached = [cq.stats_cache_r[0], cq.stats_cache_r[1], cq.stats_cache_i[0], cq.stats_cache_i[1]]
+        if any(c is None for c in cached):
+            cl = [z3.BoolVal(True)]          # a refresh must leave both estimates of both parts in the cache
+        else:
+            cl = [lift(cached[0]) != st.calls[0][2].t, lift(cached[1]) != st.calls[0][3].t,
+                  lift(cached[2]) != st.calls[1][2].t, lift(cached[3]) != st.calls[1][3].t]
         r, _ = core.check(base + [z3.Or(*cl)], timeout_ms=60000)
         recs.append(q(f"{tag}:leaf{li}:separate-stats", r))
         if r == 'sat':
@@ -380,28 +387,32 @@ def job_object(n, bits, custom):
     return recs
 
 
-def job_complex_sequence(period, ncalls, bits):
-    """several calls of one ComplexQuantizer: between refreshes each part is scaled with ITS OWN cached estimates"""
+def job_complex_sequence(period, ncalls, bits, customs=None):
+    """several calls of one ComplexQuantizer: between refreshes each part is scaled with ITS OWN cached estimates.
+    customs: per call, 'c' = a custom deviation pair is supplied on that call, 'n' = none"""
     recs = []
-    tag = f"C09:complex-seq:{(period, ncalls, bits)}"
+    customs = customs or 'n' * ncalls
+    tag = f"C09:complex-seq:{(period, ncalls, bits, customs)}"
     n, nstat = 2, 2
     ins = [(sym_stream(f'xr{c}', n), sym_stream(f'xi{c}', n)) for c in range(ncalls)]
+    cst = [[Sym(z3.Real(f'cs{c}_r')), Sym(z3.Real(f'cs{c}_i'))] if customs[c] == 'c' else None for c in range(ncalls)]
+    pre_c = [v.t > 0 for pr in cst if pr for v in pr]
 
     def run():
         def body():
             cq = Q.ComplexQuantizer(target_fwhm=32, num_bits=bits, stats_calc_period=period, stats_calc_num_samples=nstat)
-            return [cq.quantize(npx.sarr([SymC(a, b) for a, b in zip(xr, xi)])) for xr, xi in ins], cq
+            return [cq.quantize(npx.sarr([SymC(a, b) for a, b in zip(xr, xi)]), custom_stds=cst[c]) for c, (xr, xi) in enumerate(ins)], cq
         (outs, cq), st = with_stats_stub(body)
         return outs, cq, st
     with volt_patches():
-        leaves = core.explore(run, [], cap=200)
+        leaves = core.explore(run, pre_c, cap=200)
     tstd = 32 / (2 * np.sqrt(2 * np.log(2)))
     conds = []
     for li, leaf in enumerate(leaves):
         conds.append(leaf.cond())
-        base = leaf.pc + leaf.side
+        base = pre_c + leaf.pc + leaf.side
         name = f"{tag}:leaf{li}"
-        pl = dict(fn='object', n=3, bits=bits, custom='none')
+        pl = dict(fn='object', n=3, bits=bits, custom='none', customs=customs, period=period)
         if leaf.kind == 'exc':
             r, _ = core.check(base)
             recs.append(q(name + ':noexc', r, detail=repr(leaf.value)))
@@ -424,6 +435,8 @@ def job_complex_sequence(period, ncalls, bits):
             k = max(i for i, rc in enumerate(refresh) if rc <= c)
             for sel in (0, 1):
                 mu, sd = st.calls[2 * k + sel][2].t, st.calls[2 * k + sel][3].t
+                if cst[c] is not None:
+                    sd = cst[c][sel].t
                 for j in range(n):
                     xv = lift(ins[c][sel][j])
                     spec = clip_rne_term(z3.If(sd == 0, RV(0), (RV(tstd) / sd) * (xv - mu) + RV(0)), bits)
@@ -432,9 +445,89 @@ def job_complex_sequence(period, ncalls, bits):
         recs.append(q(name, r, calls=ncalls))
         if r == 'sat':
             recs.append(cex('C09:complex-seq:values', f'period {period}: a part of the complex quantiser is not scaled with its own estimates of the last refresh', pl, name=name))
-    r, _ = core.check([z3.Not(z3.Or(*conds))] if conds else [])
+    r, _ = core.check(pre_c + [z3.Not(z3.Or(*conds))] if conds else [])
     recs.append(q(f"{tag}:split-complete", r, leaves=len(leaves)))
     return recs
+
+
+def job_reset_cache(kind, before, after, pc=None):
+    """_reset_cache() puts a quantiser back into its initial refresh state whatever calls came before
+    (period symbolic for the real quantiser, concrete pc for the complex one)"""
+    recs = []
+    tag = f"C09:reset-cache:{(kind, before, after, pc)}"
+    p = z3.Int('p')
+    P = Sym(z3.ToReal(p), True) if pc is None else pc
+    pre = [p >= -2, p <= before + after + 1] if pc is None else [p == pc]
+
+    def run():
+        real_est = DS.estimate_stats
+        cnt = Counter(real_est)
+        cnt.impl = lambda v, n=10000, **kw: (0.0, 1.0)          # only the refresh schedule matters here
+        DS.estimate_stats = cnt
+        try:
+            if kind == 'real':
+                qz = Q.RealQuantizer(num_bits=4, stats_calc_period=P, stats_calc_num_samples=2)
+                call = lambda c: qz.quantize(sym_stream(f'x{c}', 2))
+            else:
+                qz = Q.ComplexQuantizer(num_bits=4, stats_calc_period=P, stats_calc_num_samples=2)
+                call = lambda c: qz.quantize(npx.sarr([SymC(a, b) for a, b in zip(sym_stream(f'xr{c}', 2), sym_stream(f'xi{c}', 2))]))
+            for c in range(before):
+                call(c)
+            qz._reset_cache()
+            caches = [qz.stats_cache] if kind == 'real' else [qz.stats_cache_r, qz.stats_cache_i, qz.quantizer_r.stats_cache, qz.quantizer_i.stats_cache]
+            cleared = all(list(cc) == [None, None] for cc in caches)
+            log = []
+            for c in range(after):
+                b = cnt.calls
+                call(before + c)
+                log.append(cnt.calls - b)
+            return cleared, log
+        finally:
+            DS.estimate_stats = cnt.fn
+    with volt_patches(extra=[(Q, dict(quantize_real=lambda x, **k: x))]):
+        leaves = core.explore(run, pre, cap=600)
+    per = 1 if kind == 'real' else 2
+    conds = []
+    for li, leaf in enumerate(leaves):
+        conds.append(leaf.cond())
+        name = f"{tag}:leaf{li}"
+        if leaf.kind == 'exc':
+            r, m = core.check(pre + leaf.pc)
+            recs.append(q(name + ':noexc', r, detail=repr(leaf.value)))
+            continue
+        cleared, log = leaf.value
+        want = [z3.If(z3.If(p > 0, c % p == 0, c == 0), per, 0) for c in range(after)]
+        r, m = core.check(pre + leaf.pc + [z3.Or(z3.BoolVal(not cleared), *[z3.IntVal(a) != w for a, w in zip(log, want)])], timeout_ms=60000)
+        recs.append(q(name, r, log=str(log)))
+        if r == 'sat':
+            recs.append(cex(f'C09:reset-cache:{kind}', f"after {before} calls and _reset_cache() the statistics were taken {log} times on the next calls (caches cleared: {cleared}); a fresh quantiser refreshes on calls 0, p, 2p, ...",
+                            dict(fn='reset', kind=kind, before=before, after=after, p=int(str(m.eval(p, model_completion=True)))), name=name))
+    r, _ = core.check(pre + [z3.Not(z3.Or(*conds))])
+    recs.append(q(f"{tag}:split-complete", r, leaves=len(leaves)))
+    return recs
+
+
+def replay_reset(p):
+    from setigen.voltage import quantization as qz, data_stream as ds
+    cnt = Counter(ds.estimate_stats)
+    ds.estimate_stats = cnt
+    rng = np.random.default_rng(1)
+    try:
+        z = qz.RealQuantizer(num_bits=4, stats_calc_period=p['p'], stats_calc_num_samples=2) if p['kind'] == 'real' else qz.ComplexQuantizer(num_bits=4, stats_calc_period=p['p'], stats_calc_num_samples=2)
+        mk = (lambda: rng.normal(size=4)) if p['kind'] == 'real' else (lambda: rng.normal(size=4) + 1j * rng.normal(size=4))
+        for c in range(p['before']):
+            z.quantize(mk())
+        z._reset_cache()
+        log = []
+        for c in range(p['after']):
+            b = cnt.calls
+            z.quantize(mk())
+            log.append(cnt.calls - b)
+    finally:
+        ds.estimate_stats = cnt.fn
+    per = 1 if p['kind'] == 'real' else 2
+    want = [per if ((c % p['p'] == 0) if p['p'] > 0 else (c == 0)) else 0 for c in range(p['after'])]
+    return log != want, f"{p['kind']} quantiser, period {p['p']}: after {p['before']} calls and _reset_cache() statistics were taken {log} times per call, a fresh quantiser takes {want}"
 
 
 def job_qcomplex(n, bits):
@@ -610,27 +703,28 @@ def replay_object(p):
         got = np.real(out) if sel == 0 else np.imag(out)
         if not np.array_equal(got.astype(int), want):
             bad.append(f"{part}: {got} != {want}")
-    if cs is None:
-        for part, x, cache in (('re', xr, cq.stats_cache_r), ('im', xi, cq.stats_cache_i)):
-            if not np.allclose([float(cache[0]), float(cache[1])], [np.mean(x[:2]), np.std(x[:2])]):
-                bad.append(f"cached statistics of the {part} part are {list(cache)}, its own estimate is {[np.mean(x[:2]), np.std(x[:2])]}")
-    # several calls: between refreshes each part keeps using ITS OWN estimates
-    for period in (1, 3, 0, -1):
-        cq = qz.ComplexQuantizer(target_fwhm=32, num_bits=bits, stats_calc_period=period, stats_calc_num_samples=2)
-        est = {}
-        for call in range(4):
-            xr_, xi_ = rng.normal(call, 3 + call, n), rng.normal(-2 * call, 1 + call, n)
-            out = cq.quantize(xr_ + 1j * xi_, custom_stds=cs)
-            if (period > 0 and call % period == 0) or call == 0:
-                est = {0: (np.mean(xr_[:2]), np.std(xr_[:2])), 1: (np.mean(xi_[:2]), np.std(xi_[:2]))}
-            for part, x, sel in (('re', xr_, 0), ('im', xi_, 1)):
-                mu, sd = est[sel]
-                div = sd if cs is None else (cs if not isinstance(cs, list) else cs[sel])
-                want = ref_q(x, 0.0, tstd, bits, mu, div)
-                got = (np.real(out) if sel == 0 else np.imag(out)).astype(int)
-                if not np.array_equal(got, want):
-                    bad.append(f"period {period}, call {call}, {part}: {got} != {want} (quantised with its own estimates of the last refresh)")
-                    break
+    for part, x, cache in (('re', xr, cq.stats_cache_r), ('im', xi, cq.stats_cache_i)):
+        if cache[0] is None or cache[1] is None or not np.allclose([float(cache[0]), float(cache[1])], [np.mean(x[:2]), np.std(x[:2])]):
+            bad.append(f"cached statistics of the {part} part are {list(cache)}, its own estimate is {[np.mean(x[:2]), np.std(x[:2])]}")
+    # several calls, with and without a custom deviation: between refreshes each part keeps using ITS OWN estimates
+    patterns = sorted({'nnnn', 'cccc', 'cnnn', 'ncnc', (p.get('customs') or 'nnnn').ljust(4, 'n')[:4]})
+    for period in sorted({1, 3, 0, -1, p.get('period', 1)}):
+        for pat in patterns:
+            cq = qz.ComplexQuantizer(target_fwhm=32, num_bits=bits, stats_calc_period=period, stats_calc_num_samples=2)
+            est = {}
+            for call in range(4):
+                xr_, xi_ = rng.normal(call, 3 + call, n), rng.normal(-2 * call, 1 + call, n)
+                cs_ = [2.5, 0.5] if pat[call] == 'c' else None
+                out = cq.quantize(xr_ + 1j * xi_, custom_stds=cs_)
+                if (period > 0 and call % period == 0) or call == 0:
+                    est = {0: (np.mean(xr_[:2]), np.std(xr_[:2])), 1: (np.mean(xi_[:2]), np.std(xi_[:2]))}
+                for part, x, sel in (('re', xr_, 0), ('im', xi_, 1)):
+                    mu, sd = est[sel]
+                    want = ref_q(x, 0.0, tstd, bits, mu, sd if cs_ is None else cs_[sel])
+                    got = (np.real(out) if sel == 0 else np.imag(out)).astype(int)
+                    if not np.array_equal(got, want):
+                        bad.append(f"period {period}, custom deviations on calls {[i for i, ch in enumerate(pat) if ch == 'c']}, call {call}, {part}: {got} != {want} (its own estimates of the last refresh)")
+                        break
     return bool(bad), '; '.join(bad[:3]) or 'complex quantiser agrees'
 
 
@@ -656,7 +750,7 @@ def replay_stats(p):
     return (not ok), f'estimate_stats -> {mu}, {sd}; expected {np.mean(x[:k])}, {np.std(x[:k])}'
 
 
-REPLAYS = {'stats': replay_stats, 'real': replay_real, 'refresh': replay_refresh, 'refresh_seq': replay_refresh_seq, 'object': replay_object, 'zero': replay_zero}
+REPLAYS = {'reset': replay_reset, 'stats': replay_stats, 'real': replay_real, 'refresh': replay_refresh, 'refresh_seq': replay_refresh_seq, 'object': replay_object, 'zero': replay_zero}
 
 
 def main():
@@ -684,6 +778,12 @@ def main():
             jobs.append(('job_object', (3, bits, custom)))
     for period in (1, 2, 3, 0, -1):
         jobs.append(('job_complex_sequence', (period, 3 if not ck.thorough else 4, 2)))
+        for customs in ('cnn', 'ncn', 'cnc'):
+            jobs.append(('job_complex_sequence', (period, 3, 2, customs)))
+    for before in (1, 2, 3):
+        jobs.append(('job_reset_cache', ('real', before, 3)))
+        for pc in (-1, 0, 1, 2, 3, 4):
+            jobs.append(('job_reset_cache', ('complex', before, 3, pc)))
     for n_, k_ in ((1, 1), (3, 2), (3, 7), (4, 4), (4, 1)):
         jobs.append(('job_stats', (n_, k_)))
     jobs.append(('job_refresh_step', ('pos',)))
